@@ -46,6 +46,22 @@ def kind_of(data):
     return ks
 
 
+def graph_fp(G):
+    nodes = tuple((n, d.get("atomic_num"), d.get("formal_charge"), bool(d.get("aromatic"))) for n, d in sorted(G.nodes(data=True)))
+    edges = tuple(sorted((u, v, tuple(sorted((k, round(float(x), 12)) for k, x in d.items() if isinstance(x, (int, float))))) for u, v, d in G.edges(data=True)))
+    return nodes, edges
+
+
+def first_diff(a, b):
+    for x, y in zip(a[0], b[0]):
+        if x != y:
+            return f"node {x} vs {y}"
+    for x, y in zip(a[1], b[1]):
+        if x != y:
+            return f"edge {x} vs {y}"
+    return "sizes"
+
+
 def check_graph(G, cm, text, viol, cnt):
     ref = graphs.atom_graph(cm)
     nodes = ref["nodes"]
@@ -145,6 +161,29 @@ def run_case(case):
         cnt["graphs_checked"] += 1
         cnt["graphs_schulz_zimm" if sz else "graphs_any_distribution"] += 1
         ref = check_graph(sag.graph, cm, text, viol, cnt)
+        # the graph is a function of the notation, not of the object's history: asking twice gives the same graph, and the graph of the mirror
+        # (taken AFTER this object has built its own graph) is the graph of a fresh parse of the mirror's text
+        if k % 3 == 0:
+            try:
+                flag = dict(expect_schulz_zimm_distribution=sz)
+                if graph_fp(M.gen_stochastic_atom_graph(**flag).graph) != graph_fp(M.gen_stochastic_atom_graph(**flag).graph):
+                    viol.append({"cls": "c17.graph-differs-between-calls", "msg": "two calls of gen_stochastic_atom_graph on one object gave different graphs", "text": text})
+                mir = M.gen_mirror()
+                if mir is not None:
+                    mt = str(mir)
+                    try:
+                        fresh = gbigsmiles.Molecule(mt)
+                    except Exception:
+                        fresh = None
+                        cnt["mirror_text_not_parseable"] += 1
+                    if fresh is not None:
+                        a = graph_fp(mir.gen_stochastic_atom_graph(**flag).graph)
+                        b = graph_fp(fresh.gen_stochastic_atom_graph(**flag).graph)
+                        cnt["mirror_graphs_compared"] += 1
+                        if a != b:
+                            viol.append({"cls": "c17.graph-of-mirror-differs-from-fresh-parse", "msg": f"after this object built its graph, the graph of its mirror {mt!r} differs from the graph of a fresh parse of that text ({len(a[0])} vs {len(b[0])} nodes; first differing node/edge: {first_diff(a, b)})", "text": text})
+            except Exception as exc:
+                cnt["mirror_probe_raised"] += 1
         try:
             stochastic_atom_graph_to_dot_string(sag)
             cnt["dot_export_ok"] += 1
